@@ -27,7 +27,7 @@ type Case struct {
 	Seed uint64 `json:"seed"`
 }
 
-var kindsFlag = flag.String("kinds", "standalone,sentinel,cluster,cluster", "case kinds to generate")
+var kindsFlag = flag.String("kinds", "standalone,sentinel,cluster,standalone-e,sentinel-e,cluster-e,cluster-e,cluster-e", "case kinds to generate")
 
 func genCase(r *gen.Rand, i int) any {
 	return Case{K: gen.Pick(r, strings.Split(*kindsFlag, ",")), Seed: r.U64() ^ ro.SeedMix()}
@@ -386,6 +386,12 @@ func main() {
 				return runSentinel(c)
 			case "cluster":
 				return runCluster(c)
+			case "cluster-e":
+				return runClusterE(c)
+			case "standalone-e":
+				return runStandaloneE(c)
+			case "sentinel-e":
+				return runSentinelE(c)
 			}
 			return obs.Result{Kind: "other"}
 		},
